@@ -982,7 +982,7 @@ func (u *Unmarshaler) processNamedFieldWithoutValue(fieldType reflect.Type, valu
 	if u.opts.fillDefault {
 		if fieldType.Kind() != reflect.Ptr && fieldKind == reflect.Struct {
 			return u.processFieldNotFromString(fieldType, value, valueWithParent{
-				value: emptyMap,
+				value: newEmptyMap(),
 			}, opts, fullName)
 		}
 		return nil
@@ -992,7 +992,7 @@ func (u *Unmarshaler) processNamedFieldWithoutValue(fieldType reflect.Type, valu
 	case reflect.Array, reflect.Map, reflect.Slice:
 		if !opts.optional() {
 			return u.processFieldNotFromString(fieldType, value, valueWithParent{
-				value: emptyMap,
+				value: newEmptyMap(),
 			}, opts, fullName)
 		}
 	case reflect.Struct:
@@ -1007,7 +1007,7 @@ func (u *Unmarshaler) processNamedFieldWithoutValue(fieldType reflect.Type, valu
 			}
 
 			return u.processFieldNotFromString(fieldType, value, valueWithParent{
-				value: emptyMap,
+				value: newEmptyMap(),
 			}, opts, fullName)
 		}
 	default:
@@ -1240,6 +1240,13 @@ func join(elem ...string) string {
 	}
 
 	return builder.String()
+}
+
+// newEmptyMap returns the document an absent struct / map / slice value is filled from.
+// It must be a new map every time: a field of type map[string]any receives the map itself,
+// the package-level emptyMap would be shared by (and writable through) every such field.
+func newEmptyMap() map[string]any {
+	return map[string]any{}
 }
 
 func newInitError(name string) error {
